@@ -357,6 +357,37 @@ func main() {
 		}
 	}
 
+	// ---- store/userhash_{argon2id,scryptauth}.go: salt / digest decoding and IsValid -> Gen/HashStr.lean
+	{
+		var w strings.Builder
+		w.WriteString("/- GENERATED by harness/cmd/factgen (translate.go) from /repo's source on every run. Do not edit. -/\n")
+		w.WriteString("import Whawty.Gen.PreludeRecord\nnamespace Whawty.Gen\nopen Whawty\n\n")
+		decTy := "Bytes → Bytes × Bytes × Bool"
+		validTy := "(Bytes → Bytes × Bytes × Bool) → Bytes → Bool × Bool"
+		for _, x := range []struct{ file, dec, recv, pre string }{
+			{"userhash_argon2id.go", "argon2IDDecodeBase64", "Argon2IDHasher", "argon"},
+			{"userhash_scryptauth.go", "scryptAuthDecodeBase64", "ScryptAuthHasher", "scrypt"},
+		} {
+			fset, f := parse(filepath.Join(repo, "store", x.file))
+			if f != nil {
+				w.WriteString(translateWith(f, fset, "", x.dec, x.pre+"DecodeBase64", decTy, fileIntConsts(f), nil, true, nil))
+				w.WriteString("\n")
+				w.WriteString(translateWith(f, fset, x.recv, "IsValid", x.pre+"IsValid", validTy, fileIntConsts(f), nil, true,
+					map[string]funcParam{x.dec: {"decodeB64", []trType{tStr}, []trType{tBytes, tBytes, tErr}}}))
+				w.WriteString("\n")
+			} else {
+				w.WriteString("def " + x.pre + "DecodeBase64 : Option (" + decTy + ") := none\n")
+				w.WriteString("def " + x.pre + "IsValid : Option (" + validTy + ") := none\n")
+			}
+		}
+		w.WriteString("end Whawty.Gen\n")
+		o := filepath.Join(filepath.Dir(out), "HashStr.lean")
+		old, _ := os.ReadFile(o)
+		if string(old) != w.String() {
+			os.WriteFile(o, []byte(w.String()), 0644)
+		}
+	}
+
 	// ---- store/store.go: checkUserFile -> Gen/CheckFile.lean
 	var cw strings.Builder
 	cw.WriteString("/- GENERATED by harness/cmd/factgen (translate.go) from /repo's source on every run. Do not edit. -/\n")
